@@ -197,3 +197,6 @@ def run(ctx):
     r15_3(ctx)
     r15_4(ctx)
     r15_5(ctx)
+    from ..initflags import group_rule, separation_rule
+    group_rule(ctx, "R8.7", "logs", "a resumed run continues with some logs wiped")
+    separation_rule(ctx, "R8.8")
